@@ -51,6 +51,11 @@ impl Lat {
             9 => { let u = 1.0f32 / 4096.0; let c = 4000.5f32; for &y in &[0.0f32, 3.0, 7.5, 2.25] { for &x in &[c - 6.0 * u, c + 6.0 * u, c - 7.0 * u, c + 8.0 * u] { v.push((x, y)); } } },
             // tall, narrow off-lattice triangles far from the origin: up to 1400 rows at x = 1030 .. 1671
             10 => { v.extend_from_slice(&[(1030.3, 0.2), (1351.685, 700.4), (1671.07, 1400.6), (1040.3, 0.2), (1360.0, 700.4), (1100.0, 1400.6)]); },
+            // partially off-grid: the half-pixel lattice -n/2-ish .. around the origin (pixels have unsigned coordinates: the grid is
+            // the non-negative quadrant, and only its pixels can be - and must be - produced)
+            11 => { let m = 2 * self.n as i32; for j in -m..=m { for i in -m..=m { v.push((i as f32 / 2.0, j as f32 / 2.0)); } } },
+            // larger off-lattice triangles reaching up to 12 px off the grid on the top and the left
+            12 => v.extend_from_slice(&[(-3.2, -2.6), (6.1, 1.3), (2.2, 7.9), (-10.5, 4.0), (3.0, -7.25), (-0.3, -0.3), (5.5, 5.5), (-12.0, -12.0), (9.75, -0.1)]),
             _ => unreachable!(),
         }
         v
@@ -104,6 +109,8 @@ fn check_cover(t: [(f32, f32); 3], r: &mut Report, fam: &str) {
     let (miny, maxy) = (t.iter().map(|p| p.1).fold(f32::MAX, f32::min).floor() as i128 - 1, t.iter().map(|p| p.1).fold(0.0, f32::max).ceil() as i128 + 1);
     let mut inside = 0;
     for j in miny..=maxy { for i in minx..=maxx {
+        // (pixels have unsigned coordinates: centres left of or above the grid cannot be, and are not to be, produced)
+        if i < 0 || j < 0 { continue; }
         let c = cover::classify(ti, SCALE, i, j, 0.001);
         let got = covered.contains(&(i, j));
         match c {
@@ -421,6 +428,9 @@ fn families(quick: bool) -> Vec<(String, Vec<(f32, f32)>, usize, bool)> {
     let n = if quick { 5 } else { 7 };
     f.push((format!("half-px N={n}"), Lat { kind: 0, n }.points(), 0, false));
     for o in 1..5 { f.push((format!("half-px N={} offset {}", if quick { 3 } else { 5 }, OFFS[o]), Lat { kind: 0, n: if quick { 3 } else { 5 } }.points(), o, false)); }
+    f.push((format!("partially off-grid: half-px lattice -{0}..{0} px", if quick { 1.5 } else { 2.0 }), Lat { kind: 11, n: if quick { 3 } else { 4 } }.points().into_iter().filter(|p| !quick || (p.0.abs() <= 1.5 && p.1.abs() <= 1.5)).collect(), 0, false));
+    f.push(("partially off-grid: half-px lattice -1..1 px offset 0.1".into(), Lat { kind: 11, n: 2 }.points().into_iter().filter(|p| p.0.abs() <= 1.0 && p.1.abs() <= 1.0).collect(), 2, false));
+    f.push(("partially off-grid: off-lattice triangles to -12 px".into(), Lat { kind: 12, n: 0 }.points(), 0, false));
     f.push((format!("half-px N=3 +57"), Lat { kind: 2, n: 3 }.points(), 0, false));
     f.push((format!("half-px N=3 +1000/+700"), Lat { kind: 4, n: 3 }.points(), 0, false));
     f.push((format!("half-px N=3 +1000/+700 offset 0.1"), Lat { kind: 4, n: 3 }.points(), 2, false));
@@ -506,7 +516,7 @@ fn main() {
     if is_cover {
         rep.finish(&cfg, "exploration",
             "every ordered vertex triple of: the half-pixel lattice 0..N px, the same lattice with all vertices (or each vertex independently) shifted by 1/3, 0.1, 2^-10, 0.499 px (non-dyadic slopes), a copy translated by +57 px, flat slivers 2^-11 px high at y = 700 and 2^-20 px high at y = 2.5 around pixel-centre rows, upright slivers 0.003 px wide around the pixel-centre column x = 4000.5, large triangles (up to 321 px) on and off the lattice, and (thorough) the quarter-pixel lattice. Every triangle is filled with z = 1 and again with z = 0 at every vertex and with z = x - 2.5: the scanlines and the fragment counts must not depend on the depths. Oracle: exact i128 edge functions on the exactly representable f32 inputs; centres within 0.001 px of an edge are exempt. Plus eight triangles with a vertex far off screen (coordinates to 1e5, all six vertex orders), judged row by row against the exact span of the row's centre line with a band of 0.001 px + 2^-21 |x|. Per triangle: covered set == inside set off the band, scanlines strictly increasing in y, no pixel twice, |xs| == number of fragments. All six vertex orders are separate cases. non-trivial = >=1 strictly inside centre.",
-            &["screen coordinates in [0, 64], [1000, 1005] x [700, 704], [0, 321], x in [4000, 4001] (negative pixel coordinates are outside tri_fill's usize domain)", "attribute (); depth values 1, 0, x - 2.5"]);
+            &["screen coordinates in [0, 64], [1000, 1005] x [700, 704], [0, 321], x in [4000, 4001], [-12, 10] (partially off-grid: only pixels of the non-negative quadrant exist)", "attribute (); depth values 1, 0, x - 2.5"]);
     } else {
         rep.finish(&cfg, "exploration",
             "triangles as for C04 (thinned in the quick tier) x all 27 reciprocal-depth assignments over {1, 0.5, 0.1} (w ratio up to 10:1), also with all three scaled by 2^-24 and 2^10 (f32 attribute; other types on a subset), x attribute types f32, (f32,Vec2) and, on a stated subset, Vec2, Vec3, Color3f, Color4f, Point2, Point3, Angle with distinct non-constant vertex values handed over pre-divided (a*z). Oracle: f64 barycentric planes through the vertex depths and values at the pixel centre; var = value plane / depth plane; tolerance 0.5% of the vertex range; every fragment finite for area > 1e-6 (triangles with minimum altitude < 0.05 px are judged for finiteness and position only); reported position within 1e-3 px of the pixel centre; plus slivers 2^-24 .. 2^-12 px wide with an exactly vertical edge through a column of pixel centres, whose fragments on that column must carry the values interpolated along the edge, and slivers whose span on a pixel-centre row is [c - w/2, c + w/2] exactly (w = 2^-22 .. 2^-10), whose fragment there must carry the mean of the two span ends; and flat slivers (height ~1e-6 of y, at rows 2.5, 100.5, 1000.5) whose middle vertex lies on a pixel-centre row, whose fragments blend linearly between that vertex and the midpoint of the long edge. non-trivial = triangle with >= 1 fragment fully judged.",
